@@ -442,7 +442,7 @@ def correspond(res, n, dm):
 def run(res):
     res.proof_step('Props/C18.v', extra_targets=['Model/Auth.vo'], kernels_needed=['K_auth'])
     dm = digestmod_from_gen()
-    n = 300 if res.tier == 'quick' else 6000
+    n = 200 if res.tier == 'quick' else 4000
     if res.broken:
         n = max(n, 1500)        # failing-input search
     correspond(res, n, dm)
